@@ -266,6 +266,32 @@ where
             return format!("FAIL next at {} = {:?}", pos, x);
         }
     }
+    // huge skips: `index + n` must saturate (not wrap back into the buffer), whatever the position
+    for pos in 0..=core::cmp::min(total, 3) {
+        for j in 0..=pos + 1 {
+            let mut it = RawDataSlice::<R, O>::new(&buf).into_iter();
+            for _ in 0..pos {
+                it.next();
+            }
+            let n = usize::MAX - j;
+            let want = if (pos as u128 + n as u128) < total as u128 { Some(items[pos + n]) } else { None };
+            let r = std::panic::catch_unwind(std::panic::AssertUnwindSafe(|| it.nth(n).map(val)));
+            match r {
+                Err(_) => return format!("FAIL nth({}) at position {} panicked at {}", n, pos, LAST_PANIC.with(|p| p.borrow().clone())),
+                Ok(got) => {
+                    if got != want {
+                        return format!("FAIL nth({}) at position {} of {} items = {:?}, expected {:?}", n, pos, total, got, want);
+                    }
+                }
+            }
+            if let Some(x) = it.next() {
+                return format!("FAIL next() after nth({}) at position {} = Some({})", n, pos, val(x));
+            }
+            if it.size_hint() != (0, Some(0)) {
+                return format!("FAIL size_hint {:?} after nth({}) at position {}", it.size_hint(), n, pos);
+            }
+        }
+    }
     // random mixes of next / nth
     let mut rng = Sm(seed);
     let mut checks = 0;
